@@ -45,6 +45,7 @@ class Ob(object):
         self.status = None
         self.bounds = bounds
         self.family = family
+        self.search = None        # dict(conds, names, ranges): where the concrete refutation of an undecided obligation looks for points
 
 
 class Check(object):
@@ -164,13 +165,88 @@ class Check(object):
         if v == 'unsat':
             ob.status = 'discharged'
         elif v in ('timeout', 'unknown'):
-            ob.status = 'undecided'
-            self.undecided.append(ob)
+            # no verdict.  Before giving up, the obligation's concrete replay is run at generic admissible points: a mismatch between
+            # the real library and the reference there is a violation in its own right (a counterexample the solver did not get to);
+            # no mismatch leaves the obligation UNDECIDED -- it is never counted as held.
+            rep = None
+            if ob.kind == 'prop' and ob.replay is not None:
+                try:
+                    rep = ob.replay(ob, self.find_point(ob.search) if ob.search else {})
+                except Exception as e:
+                    self.notes.append('refutation attempt for undecided %s failed: %r' % (ob.name, e))
+            if rep and rep.get('reproduced'):
+                ob.result['refuted_concretely'] = True
+                self.report_violation(ob.key, rep.get('path'), '(solver %s; refuted at a concrete point) %s' % (v, rep.get('detail', '')), ob)
+            else:
+                ob.status = 'undecided'
+                self.undecided.append(ob)
         elif v == 'error':
             ob.status = 'error'
             self.infra.append('obligation %s: solver error: %s' % (ob.name, ob.result['output'][:300]))
         elif v == 'sat':
             self.handle_sat(ob)
+
+    def find_point(self, search, tries=400, steps=1500):
+        """a point (name -> Fraction) at which every condition of the obligation (assumptions, path and case conditions) holds numerically:
+        random samples of the stated ranges (wider default range for unlisted names), then a local search that shrinks the
+        relative gap of the unsatisfied comparisons; {} if none is found"""
+        import random
+        from fractions import Fraction
+        import sweep
+        mp = sweep.rp.mp
+        rng = random.Random(self.seed * 31 + 7)
+        conds = list(search['conds'])
+        nodes = tm.topo(conds)
+        ranges = search.get('ranges') or {}
+        names = list(search['names'])
+        rng_of = lambda n: ranges.get(n, (Fraction(1, 8), Fraction(2)))
+
+        def score(env):
+            e = dict((n, mp.mpf(v.numerator) / v.denominator) for n, v in env.items())
+            vals = sweep.eval_all(nodes, e, search.get('ufs'))
+            tot = 0.0
+            for c in conds:
+                v = vals.get(c.id)
+                if v is True:
+                    continue
+                neg, d = False, c
+                while d.op == 'not':
+                    neg, d = not neg, d.a[0]
+                gap = 1.0
+                if d.op in ('lt', 'le', 'eq') and v is not None:
+                    a, b = vals.get(d.a[0].id), vals.get(d.a[1].id)
+                    if a is not None and b is not None:
+                        gap = float(abs(a - b) / (abs(a) + abs(b) + mp.mpf('1e-300')))
+                tot += 1.0 + gap if v is None else 0.001 + gap
+            return tot
+
+        def sample():
+            env = {}
+            for n in names:
+                lo, hi = rng_of(n)
+                env[n] = lo + (hi - lo) * Fraction(rng.randint(1, 1023), 1024)
+            return env
+        best, bs = None, None
+        for k in range(tries):
+            env = sample()
+            sc = score(env)
+            if sc == 0:
+                return env
+            if bs is None or sc < bs:
+                best, bs = env, sc
+        for k in range(steps):
+            env = dict(best)
+            for n in rng.sample(names, min(len(names), rng.choice((1, 1, 2, 3)))):
+                lo, hi = rng_of(n)
+                w_ = (hi - lo) * Fraction(rng.choice((1, 2, 4, 8, 16, 32)), 64)
+                v = env[n] + w_ * Fraction(rng.randint(-512, 512), 512)
+                env[n] = min(hi - (hi - lo) / 2048, max(lo + (hi - lo) / 2048, v))
+            sc = score(env)
+            if sc == 0:
+                return env
+            if sc <= bs:
+                best, bs = env, sc
+        return {}
 
     def handle_sat(self, ob):
         model = smt.parse_model(ob.result.get('output', ''))
